@@ -151,8 +151,15 @@ def searchStateless (core : CoreProg) (circ : Circuit) (inputs : List InputBindi
   let pool := programConstants core
   let genSrcs (s : UInt64) : UInt64 × List (SourceBinding × SigMap) :=
     sources.foldl (fun (st, acc) b => let (st', m) := genContents st; (st', acc ++ [(b, m)])) (s, [])
+  -- one input at a time pushed to the edges of the range and next to the program's own constants, the others at
+  -- their literal values: where offsets wrap, signs flip and thresholds are crossed
+  let edges : List I32 := [i32 (-2147483648), i32 (-2147483647), i32 (-2), i32 (-1), 0, 1, 2, i32 2147483643, i32 2147483646, i32 2147483647] ++
+    (pool.take 6).flatMap (fun c => [i32 (c - 1), i32 c, i32 (c + 1)])
+  let sweep : List (List I32) := (List.range inputs.length).flatMap (fun k =>
+    edges.map (fun b => (List.range inputs.length).map (fun j =>
+      if j == k then b else ((inputs[j]?).map (·.lit)).getD 0)))
   let fixed : List (List I32) :=
-    [inputs.map (·.lit), inputs.map (fun _ => 0), inputs.map (fun _ => 1), inputs.map (fun _ => i32 (-1))]
+    [inputs.map (·.lit), inputs.map (fun _ => 0), inputs.map (fun _ => 1), inputs.map (fun _ => i32 (-1))] ++ sweep
   let rec go (fuel : Nat) (s : UInt64) (done : Nat) (acc : List Mismatch) : Nat × List Mismatch :=
     match fuel with
     | 0 => (done, acc)
